@@ -63,6 +63,7 @@ type scase struct {
 		Mode   string `json:"mode"`
 		B      int    `json:"b"`
 		Tokens int    `json:"tokens"`
+		IH     bool   `json:"ih"`
 	} `json:"cfg"`
 	Sched []op   `json:"sched"`
 	Lines []line `json:"lines"`
@@ -78,20 +79,21 @@ var ipOf = map[string]string{"x": "10.0.0.1", "y": "10.0.0.2"}
 // what each accepted event should look like at a backend
 type want struct {
 	title, text, agg, stype, pri, alert string
-	date                                  int64
-	tags                                  []string
-	source                                string // sender address; replaced by the instance id after a positive lookup
-	cloud                                 string // "" while the lookup is pending, then "pos" | "neg": the cache's answer when the event arrived, else the lookup's
+	date                                int64
+	tags                                []string
+	source                              string // sender address; replaced by the instance id after a positive lookup
+	cloud                               string // "" while the lookup is pending, then "pos" | "neg": the cache's answer when the event arrived, else the lookup's
 }
 
 type world struct {
-	mu    sync.Mutex
-	tw    *trace.Writer
-	wants map[int]*want
-	cloud map[string]string // source -> "pos" | "neg" while the instance cache knows it
-	gates map[int]chan struct{}
-	res   *vh.Result
-	rec   map[string]any
+	mu     sync.Mutex
+	tw     *trace.Writer
+	wants  map[int]*want
+	cloud  map[string]string // source -> "pos" | "neg" while the instance cache knows it
+	gates  map[int]chan struct{}
+	upFail int // forwarder mode: event POSTs the upstream still has to refuse (after reading the body)
+	res    *vh.Result
+	rec    map[string]any
 }
 
 // resolve: the lookup for ip was answered; every event of that sender still waiting gets this answer, and the cache knows it from now on
@@ -223,9 +225,9 @@ func (c *cache) Peek(ip gostatsd.Source) (*gostatsd.Instance, bool) {
 	i, ok := c.known[ip]
 	return i, ok
 }
-func (c *cache) IpSink() chan<- gostatsd.Source            { return c.sink }
+func (c *cache) IpSink() chan<- gostatsd.Source           { return c.sink }
 func (c *cache) InfoSource() <-chan gostatsd.InstanceInfo { return c.info }
-func (c *cache) EstimatedTags() int                        { return 2 }
+func (c *cache) EstimatedTags() int                       { return 2 }
 
 type upstream struct{ w *world }
 
@@ -234,6 +236,17 @@ func (u *upstream) RoundTrip(req *http.Request) (*http.Response, error) {
 	req.Body.Close()
 	rec := httptest.NewRecorder()
 	if req.URL.Path == "/v2/event" {
+		u.w.mu.Lock()
+		refuse := u.w.upFail > 0
+		if refuse {
+			u.w.upFail--
+		}
+		u.w.mu.Unlock()
+		if refuse { // the body has been read; the forwarder must send the same event again
+			u.w.res.Hit("upstream-refused-event")
+			rec.WriteHeader(503)
+			return rec.Result(), nil
+		}
 		var m pb.EventV2
 		if err := proto.Unmarshal(b, &m); err == nil {
 			e := &gostatsd.Event{Title: m.Title, Text: m.Text, DateHappened: m.DateHappened, Source: gostatsd.Source(m.Hostname), AggregationKey: m.AggregationKey,
@@ -299,7 +312,7 @@ func runSchedule(t *testing.T, tw *trace.Writer, c *scase, idx int, res *vh.Resu
 			t.Fatal(err)
 		}
 		in := make(chan []*statsd.Datagram)
-		dp := statsd.NewDatagramParser(in, "", false, 0, top, 0, false, logger)
+		dp := statsd.NewDatagramParser(in, "", c.Cfg.IH, 0, top, 0, false, logger) // ignore-host concerns metrics only
 		wg.Add(1)
 		go func() { defer wg.Done(); dp.Run(ctx) }()
 		synctest.Wait()
@@ -433,6 +446,10 @@ func runSchedule(t *testing.T, tw *trace.Writer, c *scase, idx int, res *vh.Resu
 					w.gates[o.K] = nil
 				}
 				w.mu.Unlock()
+			case "upfail":
+				w.mu.Lock()
+				w.upFail = 1 // only the next POST: an upstream that keeps refusing makes the forwarder give up, which is not this property's case
+				w.mu.Unlock()
 			case "wait":
 				waits++
 				tw.Emit(map[string]any{"ev": "waitcall"})
@@ -518,6 +535,9 @@ func TestSchedules(t *testing.T) {
 		}
 		runSchedule(t, tw, &c, idx, res)
 		res.Hit("mode:" + c.Cfg.Mode)
+		if c.Cfg.IH {
+			res.Hit("ignore-host")
+		}
 		res.Hit(fmt.Sprintf("B=%d", c.Cfg.B))
 		if idx%997 == 1 {
 			res.Sample(map[string]any{"cfg": c.Cfg, "sched": c.Sched})
